@@ -102,3 +102,56 @@ SPECS["C10"] = v2spec(
     case_timeout={"quick": 300, "thorough": 600},
     shards={"quick": 2, "thorough": 4}, workers={"quick": 8, "thorough": 4},
 )
+
+
+def post_c04(ctx, spec, events, crashes):
+    """Cross-process oracle: one distinct result per query over all configurations/processes."""
+    cfg = {}
+    for e in events:
+        if e.get("ev") == "config":
+            cfg[e["shard"]] = e["config"]
+    by_q = {}
+    for e in events:
+        if e.get("ev") == "obs":
+            by_q.setdefault(e["idx"], []).append((e.get("shard"), (e.get("obs") or {}).get("res"), (e.get("obs") or {}).get("q"), e.get("gen")))
+    viol = []
+    compared = 0
+    multi = 0
+    for idx, lst in sorted(by_q.items()):
+        vals = {}
+        for sh, res, q, gen in lst:
+            vals.setdefault(res, []).append(sh)
+        if len(lst) >= 2:
+            compared += 1
+        if len(vals) > 1:
+            multi += 1
+            items = sorted(vals.items(), key=lambda kv: -len(kv[1]))
+            det = "query %r: %d distinct results over %d processes\n" % (lst[0][2], len(vals), len(lst))
+            for res, shs in items[:4]:
+                det += "  configs %s:\n    %s\n" % ([cfg.get(x, x) for x in shs], str(res)[:1500])
+            viol.append({"ev": "case", "verdict": "violation", "kind": "cross-process-differs", "gen": lst[0][3], "idx": idx, "detail": det,
+                         "params": {"name": lst[0][2]}})
+    samples = []
+    for idx, lst in sorted(by_q.items())[:2]:
+        samples.append({"query": lst[0][2], "result_in_returned_order": str(lst[0][1])[:600], "processes_agreeing": len(lst)})
+    need = 1 if ctx.get("only") is not None else min(4, len(cfg))
+    if ctx.get("only") is None and len(cfg) < 4:
+        viol.append({"ev": "case", "verdict": "violation", "kind": "harness", "gen": "config", "detail": "fewer than 4 configurations reported: %s" % cfg})
+    return {"violations": viol, "samples": samples,
+            "cov": {"configurations": sorted(cfg.values()), "queries_compared_across_processes": compared, "processes": len(cfg)}}
+
+
+SPECS["C04"] = v2spec(
+    "TestVerifC04",
+    title="Match is deterministic and side-effect free",
+    rule=("8 child processes (different map-iteration seeds), each one configuration {corpus order: directory walk/sorted/reversed/shuffled} x {plain, +200 unrelated documents} x "
+          "{trace off, trace all phases into a discarding Tracer, trace to stdout}, answer the same seeded query list (every document planted and edited, concatenations, scenario files, "
+          "tie-prone inputs: token-identical documents under two names, several Copyright lines, the same document twice). Each query is issued 3x per process with Match/MatchFrom/Normalize "
+          "calls on other inputs in between; results are compared in returned order with confidence bits, in-process and (offline) across all processes; argument slices are hashed before/after each call. "
+          "Non-trivial = query with at least one match; distinct = distinct query."),
+    floor_evals={"quick": 2000, "thorough": 6000},
+    floor_nontrivial={"quick": 300, "thorough": 800},
+    shards={"quick": 8, "thorough": 8}, workers={"quick": 1, "thorough": 1},
+    timeout={"quick": 1800, "thorough": 3 * 3600},
+    post=post_c04,
+)
